@@ -21,9 +21,11 @@ Floats are exact decimals (as in C09); the model judges `f64` equality by canoni
 -/
 import SwimVerif.Model.Recon
 import SwimVerif.Model.ReconProto
+import SwimVerif.Generated.ReconEqConsts
 
 namespace SwimVerif.ReconEq
 open SwimVerif.Recon
+open SwimVerif.Generated.ReconEq
 
 /-! ## Events (`swimos_form::read::ReadEvent`, `NumericValue`) -/
 
@@ -838,7 +840,7 @@ def stacksEq : Nat → List BuilderState → List BuilderState → Bool
 def VV.beq (a b : VV) : Bool :=
   if a.slotKey = b.slotKey then
     match a.state, b.state with
-    | .inProgress, .inProgress => stacksEq (a.stack.length + 1) a.stack.reverse b.stack.reverse
+    | .inProgress, .inProgress => stacksEq (a.stack.length + b.stack.length + 1) a.stack.reverse b.stack.reverse
     | .init, .init => true
     | _, _ => false
   else false
@@ -972,56 +974,49 @@ def skipIf (target : Event) (v : VV) (e : Event) (rest : List SItem) : Option (V
     | _ => none
   else some (v, e, rest)
 
+/-- Both skips of one side (`StartBody`, then `EndRecord`): `none` = `return Some(false)`. -/
+def skipBoth (v : VV) (e : Event) (rest : List SItem) : Option (VV × Event × List SItem) :=
+  match skipIf .startBody v e rest with
+  | none => none
+  | some p => skipIf .endRecord p.1 p.2.1 p.2.2
+
 /-- The check after every iteration of the loop. -/
 def afterIter (v1 v2 : VV) : Option (Option Bool) :=
   if v1.beq v2 then none
   else if v1.state = .invalid ∧ v2.state = .invalid then some none
   else some (some false)
 
-/-- `incremental_compare` (`fuel` ≥ total length of the two streams + 1). -/
+/-- `incremental_compare` (`fuel` ≥ total length of the two streams + 1).  In the branch for two different events
+the code skips on the first side, then on the second; every failure returns `Some(false)` and the two sides do not
+interact, so the order is immaterial and the model evaluates both. -/
 def cmpLoop : Nat → VV → VV → List SItem → List SItem → Option Bool
   | 0, _, _, _, _ => some false
   | fuel + 1, v1, v2, a, b =>
     match a, b with
     | .ev e1 :: ra, .ev e2 :: rb =>
       if e1.beq e2 then
-        let v1' := (v1.feed e1).1
-        let v2' := (v2.feed e2).1
-        match afterIter v1' v2' with
+        match afterIter (v1.feed e1).1 (v2.feed e2).1 with
         | some r => r
-        | none => cmpLoop fuel v1' v2' ra rb
+        | none => cmpLoop fuel (v1.feed e1).1 (v2.feed e2).1 ra rb
       else
-        match skipIf .startBody v1 e1 ra with
-        | none => some false
-        | some (v1a, e1a, ra1) =>
-        match skipIf .endRecord v1a e1a ra1 with
-        | none => some false
-        | some (v1b, e1b, ra2) =>
-        match skipIf .startBody v2 e2 rb with
-        | none => some false
-        | some (v2a, e2a, rb1) =>
-        match skipIf .endRecord v2a e2a rb1 with
-        | none => some false
-        | some (v2b, e2b, rb2) =>
-          if e1b.beq e2b then
-            let f1 := v1b.feed e1b
-            let f2 := v2b.feed e2b
-            if f1.2 = f2.2 then
-              match afterIter f1.1 f2.1 with
+        match skipBoth v1 e1 ra, skipBoth v2 e2 rb with
+        | some p1, some p2 =>
+          if p1.2.1.beq p2.2.1 then
+            if (p1.1.feed p1.2.1).2 = (p2.1.feed p2.2.1).2 then
+              match afterIter (p1.1.feed p1.2.1).1 (p2.1.feed p2.2.1).1 with
               | some r => r
-              | none => cmpLoop fuel f1.1 f2.1 ra2 rb2
+              | none => cmpLoop fuel (p1.1.feed p1.2.1).1 (p2.1.feed p2.2.1).1 p1.2.2 p2.2.2
             else some false
           else some false
+        | _, _ => some false
     | .ev e1 :: ra, [] =>
-      let v1' := (v1.feed e1).1
-      (match afterIter v1' v2 with
+      (match afterIter (v1.feed e1).1 v2 with
        | some r => r
-       | none => cmpLoop fuel v1' v2 ra [])
+       | none => cmpLoop fuel (v1.feed e1).1 v2 ra [])
     | [], .ev e2 :: rb =>
-      let v2' := (v2.feed e2).1
-      (match afterIter v1 v2' with
+      (match afterIter v1 (v2.feed e2).1 with
        | some r => r
-       | none => cmpLoop fuel v1 v2' [] rb)
+       | none => cmpLoop fuel v1 (v2.feed e2).1 [] rb)
     | .bad :: _, .bad :: _ => none
     | .bad :: _, _ => some false
     | _, .bad :: _ => some false
@@ -1067,48 +1062,78 @@ def bigCalls (n : Int) : List HTok :=
   let bytes := leDigits64 (n.natAbs + 1) n.natAbs
   [.i (if n < 0 then 0 else 2), .z (bytes.length / 8), .b bytes]
 
+/-- The float whose bits `NumericValue::hash` writes: `NaN` as `+0.0`; `-0.0` as `+0.0` too once C15-N1 is repaired
+(`floatHashZeroNormalised`, read from the source). -/
+def hashedFloat (f : Flt) : Flt :=
+  match (if floatHashZeroNormalised then fltCanon f else f) with
+  | .nan => .fin false 0 0
+  | x => x
+
 /-- `<NumericValue as Hash>::hash`. -/
 def numCalls : Num → List HTok
-  | .float f => [.u 2, .q (match f with | .nan => .fin false 0 0 | x => x)]
+  | .float f => [.u floatHash, .q (hashedFloat f)]
   | n =>
     match n.intVal with
-    | some v => if inI128 v then [.u 0, .w v] else .u 1 :: bigCalls v
+    | some v => if inI128 v then [.u intHash, .w v] else .u bigintHash :: bigCalls v
     | none => []
 
-/-- Derived `Hash` of `ReadEvent`: discriminant, then the fields. -/
+/-- Derived `Hash` of `ReadEvent`: discriminant (declaration order, read from the source), then the fields. -/
 def evCalls : Event → List HTok
-  | .extant => [.i 0]
-  | .text s => .i 1 :: strCalls s
-  | .num n => .i 2 :: numCalls n
-  | .bool b => [.i 3, .u (if b then 1 else 0)]
-  | .blob bs => [.i 4, .z bs.length, .b bs]
-  | .startAttr n => .i 5 :: strCalls n
-  | .endAttr => [.i 6]
-  | .startBody => [.i 7]
-  | .slot => [.i 8]
-  | .endRecord => [.i 9]
+  | .extant => [.i dExtant]
+  | .text s => .i dTextValue :: strCalls s
+  | .num n => .i dNumber :: numCalls n
+  | .bool b => [.i dBoolean, .u (if b then 1 else 0)]
+  | .blob bs => [.i dBlob, .z bs.length, .b bs]
+  | .startAttr n => .i dStartAttribute :: strCalls n
+  | .endAttr => [.i dEndAttribute]
+  | .startBody => [.i dStartBody]
+  | .slot => [.i dSlot]
+  | .endRecord => [.i dEndRecord]
 
-/-- `is_implicit_record`, state `Nested(level)`, `level = lvl + 1`. -/
+/-- `is_implicit_record` as a scan of the text (`ValidationState`: `none` = `Top`, `some lvl` = `Nested(lvl + 1)`); the
+two `is_not` stop sets are read from the source. -/
 def implicitScan : Nat → Option Nat → List Char → Bool
   | 0, _, _ => false
   | fuel + 1, none, inp =>
     -- `Top`: skip `is_not(",;:{()")`, then one of `,` `;` `:` (true) `{` `(` (nest) `)` (false); anything else: false
-    (match inp.dropWhile (fun c => !(c = ',' || c = ';' || c = ':' || c = '{' || c = '(' || c = ')')) with
+    (match inp.dropWhile (fun c => !scanTopStops.contains c.toNat) with
      | [] => false
      | c :: r =>
        if c = ',' || c = ';' || c = ':' then true
        else if c = '{' || c = '(' then implicitScan fuel (some 0) r
        else false)
   | fuel + 1, some lvl, inp =>
-    (match inp.dropWhile (fun c => !(c = '{' || c = '(' || c = ')' || c = '}')) with
+    (match inp.dropWhile (fun c => !scanNestedStops.contains c.toNat) with
      | [] => false
      | c :: r =>
        if c = '{' || c = '(' then implicitScan fuel (some (lvl + 1)) r
-       else (match lvl with
-         | 0 => implicitScan fuel none r
-         | l + 1 => implicitScan fuel (some l) r))
+       else if c = ')' || c = '}' then
+         (match lvl with
+          | 0 => implicitScan fuel none r
+          | l + 1 => implicitScan fuel (some l) r)
+       else false)
 
-def isImplicitRecord (inp : List Char) : Bool := implicitScan (inp.length + 1) none inp
+/-- `is_implicit_record` once C15-N2 is repaired: a look-ahead with the parser itself from the state
+`[Init, AttrBodyStartOrNl]`; the body is an implicit record if it has a slot or more than one value at its top level. -/
+def implicitLook : Nat → Nat → List Event → Bool
+  | _, _, [] => false
+  | depth, values, e :: es =>
+    match e with
+    | .startAttr _ => implicitLook (depth + 1) values es
+    | .endAttr => if depth = 0 then false else implicitLook (depth - 1) values es
+    | .startBody =>
+      if depth = 0 then (if 1 ≤ values then true else implicitLook 1 (values + 1) es)
+      else implicitLook (depth + 1) values es
+    | .endRecord => implicitLook (depth - 1) values es
+    | .slot => if depth = 0 then true else implicitLook depth values es
+    | _ => if depth = 0 then (if 1 ≤ values then true else implicitLook 0 (values + 1) es) else implicitLook depth values es
+
+/-- `is_implicit_record(input)`: the scan of the text (the code as it is) or the structural look-ahead (repaired),
+as the source says (`implicitByStructure`). -/
+def isImplicitRecord (inp : List Char) : Bool :=
+  if implicitByStructure then
+    implicitLook 0 0 ((runFrom (3 * inp.length + 8) [.body .ab .startOrNl, .init] inp).1.map (·.ev))
+  else implicitScan (inp.length + 1) none inp
 
 /-- The `while let Some(event_or_end) = events.take_event()` body of `HashParser::hash`. -/
 def hashEmits : List Bool → List Emit → List HTok
@@ -1181,7 +1206,7 @@ end
 /-- Hash calls of an event with `-0.0` written as `0.0` (what equality requires). -/
 def evCallsN (e : Event) : List HTok :=
   match e with
-  | .num (.float f) => [.i 2, .u 2, .q (match fltCanon f with | .nan => .fin false 0 0 | x => x)]
+  | .num (.float f) => [.i dNumber, .u floatHash, .q (match fltCanon f with | .nan => .fin false 0 0 | x => x)]
   | _ => evCalls e
 
 /-- The normal form the hash is meant to respect. -/
